@@ -28,7 +28,7 @@ META = {
     "assumptions": [],
     "not_decided": ["behaviour of third-party format crates"],
 }
-TECHNIQUE = "decision tables over MIR paths, abstract evaluation of the visitor bodies on opaque parser outcomes, unwrap-on-fallible rule over the call graph"
+TECHNIQUE = "decision tables over MIR paths, abstract evaluation of the visitor bodies on opaque parser outcomes and of the two parsers behind them in every serde configuration, unwrap-on-fallible rule over the call graph"
 
 
 def run(ctx, FS):
